@@ -171,4 +171,8 @@ def build(tier, repo):
                    "'optimal' is never reported at a warm start whose z is outside the cone")
     chk.note_analysed("start_validations", sr5.start_mirror_rule(r10, w, [("coneprog", "coneqp")]))
     r10.require(1)
+    r11 = chk.rule("C03-R11", "the primal objective is read from rx = q + P*x at every site (before A'y, G'z are accumulated)",
+                   "the reported 'primal objective' is the objective of the returned x on every path")
+    chk.note_analysed("objective_reads", sr5.objective_contribution_rule(r11, w))
+    r11.require(2)
     return chk
